@@ -182,6 +182,7 @@ pub const FIXTURE_DOC: &str = r#"<?xml version="1.0" encoding="utf-8"?>
     <FIBEX-ELEMENT-REF-CONDITIONAL><FIBEX-ELEMENT-REF DEST="I-SIGNAL">/pkg1/x9</FIBEX-ELEMENT-REF></FIBEX-ELEMENT-REF-CONDITIONAL>
     <FIBEX-ELEMENT-REF-CONDITIONAL><FIBEX-ELEMENT-REF DEST="I-SIGNAL">/pkg10/x9</FIBEX-ELEMENT-REF></FIBEX-ELEMENT-REF-CONDITIONAL>
     <FIBEX-ELEMENT-REF-CONDITIONAL><FIBEX-ELEMENT-REF DEST="I-SIGNAL">/pkg1/nothing</FIBEX-ELEMENT-REF></FIBEX-ELEMENT-REF-CONDITIONAL>
+    <FIBEX-ELEMENT-REF-CONDITIONAL><FIBEX-ELEMENT-REF DEST="FIBEX-ELEMENT">/pkg10/a1b</FIBEX-ELEMENT-REF></FIBEX-ELEMENT-REF-CONDITIONAL>
    </FIBEX-ELEMENTS>
   </SYSTEM>
   <COMPU-METHOD><SHORT-NAME>b</SHORT-NAME><UNIT-REF DEST="UNIT">/a/x10</UNIT-REF>
@@ -205,6 +206,7 @@ pub const FIXTURE_DOC: &str = r#"<?xml version="1.0" encoding="utf-8"?>
  <ELEMENTS>
   <I-SIGNAL><SHORT-NAME>x9</SHORT-NAME><DESC><L-2 L="EN">some <TT TYPE="SGMLTAG">tag</TT> text</L-2></DESC></I-SIGNAL>
   <I-SIGNAL><SHORT-NAME BLUEPRINT-VALUE="bp">x9_1</SHORT-NAME><SYSTEM-SIGNAL-REF DEST="SYSTEM-SIGNAL">/pkg1/a2_1</SYSTEM-SIGNAL-REF></I-SIGNAL>
+  <ECU-INSTANCE><SHORT-NAME>a1b</SHORT-NAME></ECU-INSTANCE>
  </ELEMENTS>
 </AR-PACKAGE>
 <AR-PACKAGE><SHORT-NAME>e</SHORT-NAME></AR-PACKAGE>
@@ -881,7 +883,31 @@ impl World {
                 let (e, t) = (self.elems[id].clone(), self.elems[tid].clone());
                 res.model = self.model_of(id);
                 res.rel = self.relation(id, tid);
-                finish!(e.set_reference_target(&t), format!("{}.set_reference_target({})", self.name_of(id), self.name_of(tid)))
+                let r = e.set_reference_target(&t);
+                let mut desc = format!("{}.set_reference_target({})", self.name_of(id), self.name_of(tid));
+                // one in three: afterwards DEST is set to another value that is also correct for this target (an abstract base
+                // class such as FIBEX-ELEMENT for an ECU-INSTANCE): the reference still resolves and must not be reported
+                if r.is_ok() && o.c % 3 == 0 {
+                    let vbit = self.version_of_model(self.model_of(id)) as u32;
+                    if let Some(CharacterDataSpec::Enum { items }) = e.element_type().find_attribute_spec(AttributeName::Dest).map(|s| s.spec) {
+                        let cur = e.attribute_value(AttributeName::Dest);
+                        let alts: Vec<autosar_data::EnumItem> = items.iter().filter(|(i, m)| m & vbit != 0 && t.element_type().verify_reference_dest(*i) && Some(CharacterData::Enum(*i)) != cur).map(|(i, _)| *i).collect();
+                        if std::env::var("VERIF_DEBUG_C05").is_ok() {
+                            eprintln!("C05DEBUG alts={} ref={} target={}", alts.len(), e.element_name(), t.element_name());
+                        }
+                        if !alts.is_empty() {
+                            let it = alts[pick(alts.len(), o.c.rotate_left(8))];
+                            let r2 = e.set_attribute(AttributeName::Dest, CharacterData::Enum(it));
+                            if std::env::var("VERIF_DEBUG_C05").is_ok() {
+                                eprintln!("C05DEBUG set DEST {} -> {:?}", it.to_str(), r2.as_ref().map_err(|e| e.to_string()));
+                            }
+                            if r2.is_ok() {
+                                desc.push_str(&format!(" + set_attribute(DEST, {})", it.to_str()));
+                            }
+                        }
+                    }
+                }
+                finish!(r, desc)
             }
             SET_COMMENT => {
                 let Some(id) = self.pick_elem(o.a, o.d) else { skip!("no element".to_string()) };
